@@ -317,6 +317,7 @@ def drive_cross(mon: Monitor, rng: random.Random, n: int) -> None:
     for _ in range(n):
         entry = rng.choice(gen.CRS_WINDOWS[1:])
         g, (lon, lat, ext) = gen.window_geobox(rng, entry, npix=(16, 16))
+        gen.crs_churn(5, limit=10**9)  # (more throw-away CRSs between the cross-CRS requests: detection of identity-keyed CRS caches must not hinge on allocator luck)
         x0_, y0_, x1_, y1_ = lon - ext / 2, lat - ext / 2, lon + ext / 2, lat + ext / 2
         kind = rng.choice(["box", "box", "diamond", "triangle", "sliver"])
         if kind == "box":
